@@ -312,4 +312,189 @@ theorem dup_framecode_run (o : Opts) (done : Cif) (bcode : Str) (hfresh : ∀ c 
     exact dup_framecode_step o done bcode hfresh fc fc0 body bseen (elemsToks post ++ rest) s1 f w1 fa fb ffs fls _ hw1 hmfd hcode hk
       ha hb hwb hbseen hpk hf (by simpa using hF1)
 
+
+/-! ### data blocks -/
+
+theorem blocks_follow (r : List Block) (rest : List TokSpec) (h : blockFollow rest) : blockFollow (blocksToks r ++ rest) := by
+  cases r with
+  | nil => simpa [blocksToks] using h
+  | cons b r' => exact ⟨.blockHead, b.code, elemsToks b.body ++ blocksToks r' ++ rest, by simp [blocksToks], Or.inl rfl⟩
+
+/-- well-formed data blocks in front of something: the block loop goes on behind them -/
+theorem blocks_prefix (o : Opts) (hstore : o.store = true) (hmfd : o.maxFrameDepth ≠ 0) :
+    ∀ (bs : List Block) (bseen : List Str) (rest : List TokSpec) (s : PS) (fuel : Nat) (pol : Policy) (w : W),
+      wfBlocks o bs bseen = true → (∀ c ∈ w.cif, o.norm c.code ∈ bseen) → szBlocks bs ≤ fuel → blockFollow rest →
+      Feeds o s (blocksToks bs ++ rest) →
+      ∃ s', blocksLoop o (fuel + bs.length) s pol w = blocksLoop o fuel s' pol { w with cif := w.cif ++ denote o.dia o.normKey bs }
+        ∧ Feeds o s' rest
+  | [], bseen, rest, s, fuel, pol, w, _, _, _, _, hF => by
+    refine ⟨s, ?_, by simpa [blocksToks] using hF⟩
+    simp only [List.length_nil, Nat.add_zero, denote, List.map_nil, List.append_nil]
+  | b :: r, bseen, rest, s, fuel, pol, w, hwf, hseen, hfuel, hrest, hF => by
+    simp only [wfBlocks, Bool.and_eq_true, Bool.not_eq_true'] at hwf
+    obtain ⟨⟨⟨hcode, hcnew⟩, hwb⟩, hwr⟩ := hwf
+    simp only [szBlocks] at hfuel
+    have hnew : ∀ c ∈ w.cif, codeIs o.norm (o.norm b.code) c = false := by
+      intro c hc
+      have h1 := hseen c hc
+      simp only [codeIs, beq_eq_false_iff_ne, ne_eq]
+      intro heq
+      rw [heq] at h1
+      simp [List.contains_iff_mem] at hcnew
+      exact hcnew h1
+    simp only [blocksToks, List.cons_append, List.append_assoc] at hF
+    obtain ⟨s1, h1, h2⟩ := block_step o hstore hmfd b (blocksToks r ++ rest) s (fuel + r.length) pol w hcode hnew hwb
+      (by omega) (blocks_follow r rest hrest) hF
+    obtain ⟨s2, h3, h4⟩ := blocks_prefix o hstore hmfd r (o.norm b.code :: bseen) rest s1 fuel pol
+      { w with cif := w.cif ++ [denoteBlock o.dia o.normKey b] } hwr
+      (by
+        intro c hc
+        rcases List.mem_append.mp hc with h | h
+        · exact List.mem_cons_of_mem _ (hseen c h)
+        · simp only [List.mem_singleton] at h; subst h; simp [denoteBlock, Container.code])
+      (by omega) hrest h2
+    refine ⟨s2, ?_, h4⟩
+    have e : fuel + (b :: r).length = (fuel + r.length) + 1 := by simp; omega
+    rw [e, h1, h3]
+    simp [denote, List.append_assoc]
+
+/-- a data block whose code is not a valid block code: one CIF_INVALID_BLOCKCODE, the code is used anyway -/
+theorem invalid_blockcode_step (o : Opts) (hstore : o.store = true) (hmfd : o.maxFrameDepth ≠ 0) (b : Block) (rest : List TokSpec)
+    (s : PS) (fuel : Nat) (w : W) (hn0 : noNul b.code = true) (hinv : isValidName false b.code = false)
+    (hnew : ∀ c ∈ w.cif, codeIs o.norm (o.norm b.code) c = false)
+    (hwb : wfElems o b.body [] [] = true) (hfuel : szBlock b ≤ fuel) (hrest : blockFollow rest)
+    (hF : Feeds o s ((.blockHead, b.code) :: (elemsToks b.body ++ rest))) :
+    ∃ s' r, blocksLoop o (fuel + 1) s acceptAll w
+        = blocksLoop o fuel s' acceptAll { log := r :: w.log, cif := w.cif ++ [denoteBlock o.dia o.normKey b] }
+      ∧ r.code = CIF_INVALID_BLOCKCODE ∧ Feeds o s' rest := by
+  simp only [szBlock] at hfuel
+  obtain ⟨t, s1, hty, htx, hn, _, hr⟩ := hF.inv
+  obtain ⟨X, hX⟩ : ∃ X, fuel = X + 1 := ⟨fuel - 1, by omega⟩
+  obtain ⟨g, hg⟩ : ∃ g, X = (g + 1) + b.body.length := ⟨X - b.body.length - 1, by omega⟩
+  let r0 : Report := ⟨CIF_INVALID_BLOCKCODE, s1.scan.line, s1.scan.col - b.code.length⟩
+  obtain ⟨s2, h1, h2⟩ := elems_structure o w.cif b.code hnew hmfd b.body [] [] rest (consume s1) (g + 1) acceptAll
+    { log := r0 :: w.log, cif := w.cif ++ [.mk b.code [] []] } [] [] rfl hwb (by intro k hk; simp [normNames] at hk)
+    (by intro c hc; cases hc) (by omega) (blockFollow_term hrest) hr
+  rw [← hg] at h1
+  obtain ⟨ty, tx, ts, rfl, hfol⟩ := hrest
+  obtain ⟨t3, s3, hty3, htx3, hn3, ht3, hr3⟩ := h2.inv
+  refine ⟨s3, r0, ?_, rfl, by rw [← hty3, ← htx3]; exact Feeds.pending ht3 hr3⟩
+  have hpacked : allPacked (denoteElems o.dia o.normKey b.body [] []).2 :=
+    allPacked_denoteElems o b.body [] [] [] [] hwb (by intro l hl; cases hl)
+  have hv := View.block o w.cif b.code hnew
+  conv => lhs; rw [blocksLoop]
+  simp only [bind_eq, pure_eq, P.bind, P.pure, hn, hty, htx, hstore, if_true, cstr_noNul hn0,
+    createIn_block_invalid o b.code _ _ w hinv hnew]
+  conv => lhs; rw [hX, parseContainer]
+  simp only [bind_eq, pure_eq, P.bind, P.pure, h1, r0]
+  conv => lhs; rw [elemsLoop]
+  rcases hfol with h | h
+  · simp only [bind_eq, pure_eq, P.bind, P.pure, hn3, hty3, h, if_true, getCif, setCif, hv.upd, pruneC_packed _ _ _ hpacked]
+    rw [hX]; rfl
+  · simp only [bind_eq, pure_eq, P.bind, P.pure, hn3, hty3, h, if_true, getCif, setCif, hv.upd, pruneC_packed _ _ _ hpacked]
+    rw [hX]; rfl
+
+/-- a data block header whose (normalised) code the CIF already has: one CIF_DUP_BLOCKCODE, the existing block `code0` (anywhere
+    in the CIF) is reopened — the items are added to it -/
+theorem dup_blockcode_step (o : Opts) (hstore : o.store = true) (code code0 : Str) (body : List Item) (seen : List Str)
+    (rest : List TokSpec) (s : PS) (fuel : Nat) (w : W) (ca cb : Cif) (bfs : List Container) (bls : List Loop)
+    (hcif : w.cif = ca ++ .mk code0 bfs bls :: cb) (hcode : wfCode code = true) (hk : o.norm code0 = o.norm code)
+    (ha : ∀ c ∈ ca, codeIs o.norm (o.norm code) c = false) (hb : ∀ c ∈ cb, codeIs o.norm (o.norm code) c = false)
+    (hwb : wfItems o body seen = true) (hseen : ∀ k ∈ normNames o bls, k ∈ seen) (hpk : allPacked bls)
+    (hfuel : szItems body + body.length + 3 ≤ fuel) (hrest : blockFollow rest)
+    (hF : Feeds o s ((.blockHead, code) :: (itemsToks body ++ rest))) :
+    ∃ s' r, blocksLoop o (fuel + 1) s acceptAll w
+        = blocksLoop o fuel s' acceptAll
+            { log := r :: w.log, cif := ca ++ .mk code0 bfs (denoteItems o.dia o.normKey body bls) :: cb }
+      ∧ r.code = CIF_DUP_BLOCKCODE ∧ Feeds o s' rest := by
+  simp only [wfCode, Bool.and_eq_true] at hcode
+  obtain ⟨t, s1, hty, htx, hn, _, hr⟩ := hF.inv
+  obtain ⟨X, hX⟩ : ∃ X, fuel = X + 1 := ⟨fuel - 1, by omega⟩
+  obtain ⟨g, hg⟩ : ∃ g, X = (g + 1) + body.length := ⟨X - body.length - 1, by omega⟩
+  have hv := View.blockMid o ca cb code0 code hk ha hb
+  let r0 : Report := ⟨CIF_DUP_BLOCKCODE, s1.scan.line, s1.scan.col - code.length⟩
+  obtain ⟨s2, h1, h2⟩ := items_structure o hv body seen rest (consume s1) (g + 1) acceptAll
+    { w with log := r0 :: w.log } bfs bls true hcif hwb hseen (by omega) (fun _ => blockFollow_term hrest) hr
+  rw [← hg] at h1
+  obtain ⟨ty, tx, ts, rfl, hfol⟩ := hrest
+  obtain ⟨t3, s3, hty3, htx3, hn3, ht3, hr3⟩ := h2.inv
+  refine ⟨s3, r0, ?_, rfl, by rw [← hty3, ← htx3]; exact Feeds.pending ht3 hr3⟩
+  have hpacked : allPacked (denoteItems o.dia o.normKey body bls) := allPacked_denoteItems o body seen bls hwb hpk
+  conv => lhs; rw [blocksLoop]
+  simp only [bind_eq, pure_eq, P.bind, P.pure, hn, hty, htx, hstore, if_true, cstr_noNul hcode.2,
+    createIn_block_dup o code _ _ w hcode.1 ⟨.mk code0 bfs bls, by rw [hcif]; exact List.mem_append_right _ List.mem_cons_self, by
+      simp [codeIs, Container.code, hk]⟩]
+  conv => lhs; rw [hX, parseContainer]
+  simp only [bind_eq, pure_eq, P.bind, P.pure, h1, r0]
+  conv => lhs; rw [elemsLoop]
+  rcases hfol with h | h
+  · simp only [bind_eq, pure_eq, P.bind, P.pure, hn3, hty3, h, if_true, getCif, setCif, hv.upd, pruneC_packed _ _ _ hpacked]
+    rw [hX]
+  · simp only [bind_eq, pure_eq, P.bind, P.pure, hn3, hty3, h, if_true, getCif, setCif, hv.upd, pruneC_packed _ _ _ hpacked]
+    rw [hX]
+
+
+/-- CIF_INVALID_BLOCKCODE, universally, for the whole block loop of parse_cif: any well-formed data blocks before and behind; one
+    report; the CIF is that of the document (the block is kept under its code) -/
+theorem invalid_blockcode_run (o : Opts) (hstore : o.store = true) (hmfd : o.maxFrameDepth ≠ 0) (pre post : List Block) (b : Block)
+    (bseen bseen2 : List Str) (s : PS) (fuel : Nat) (w : W)
+    (hpre : wfBlocks o pre bseen = true) (hseen : ∀ c ∈ w.cif, o.norm c.code ∈ bseen)
+    (hn0 : noNul b.code = true) (hinv : isValidName false b.code = false)
+    (hnew : ∀ c ∈ w.cif ++ denote o.dia o.normKey pre, codeIs o.norm (o.norm b.code) c = false)
+    (hwb : wfElems o b.body [] [] = true) (hpost : wfBlocks o post bseen2 = true)
+    (hseen2 : ∀ c ∈ w.cif ++ denote o.dia o.normKey (pre ++ [b]), o.norm c.code ∈ bseen2)
+    (hfuel : szBlocks pre + szBlock b + szBlocks post + 1 ≤ fuel)
+    (hF : Feeds o s (blocksToks pre ++ ((.blockHead, b.code) :: (elemsToks b.body ++ (blocksToks post ++ [(.end_, [])]))))) :
+    ∃ s' r, blocksLoop o (fuel + post.length + 1 + pre.length) s acceptAll w
+        = .ok s' { log := r :: w.log, cif := w.cif ++ denote o.dia o.normKey (pre ++ [b] ++ post) }
+      ∧ r.code = CIF_INVALID_BLOCKCODE := by
+  obtain ⟨s1, h1, h2⟩ := blocks_prefix o hstore hmfd pre bseen _ s (fuel + post.length + 1) acceptAll w hpre hseen (by omega)
+    ⟨_, _, _, rfl, Or.inl rfl⟩ hF
+  obtain ⟨s2, r, h3, hr, h4⟩ := invalid_blockcode_step o hstore hmfd b (blocksToks post ++ [(.end_, [])]) s1 (fuel + post.length)
+    { w with cif := w.cif ++ denote o.dia o.normKey pre } hn0 hinv hnew hwb (by omega) (blocks_rest_head post) h2
+  obtain ⟨s3, h5⟩ := blocks_structure o hstore hmfd post bseen2 s2 fuel acceptAll
+    { log := r :: w.log, cif := w.cif ++ denote o.dia o.normKey pre ++ [denoteBlock o.dia o.normKey b] } hpost
+    (by simpa [denote, List.map_append, List.append_assoc] using hseen2) (by omega) h4
+  refine ⟨s3, r, ?_, hr⟩
+  rw [h1, h3, h5]
+  simp [denote, List.map_append, List.append_assoc]
+
+/-- CIF_DUP_BLOCKCODE, universally, for the whole block loop of parse_cif: any well-formed data blocks before — among the blocks
+    of the CIF then is `code0`, spelled in any way that normalises like `code` — and behind; one report, the items of the second
+    block are added to the first -/
+theorem dup_blockcode_run (o : Opts) (hstore : o.store = true) (hmfd : o.maxFrameDepth ≠ 0) (pre post : List Block)
+    (code code0 : Str) (body : List Item) (bseen bseen2 iseen : List Str) (s : PS) (fuel : Nat) (w : W)
+    (ca cb : Cif) (bfs : List Container) (bls : List Loop)
+    (hpre : wfBlocks o pre bseen = true) (hseen : ∀ c ∈ w.cif, o.norm c.code ∈ bseen)
+    (hcode : wfCode code = true) (hk : o.norm code0 = o.norm code)
+    (hsplit : w.cif ++ denote o.dia o.normKey pre = ca ++ .mk code0 bfs bls :: cb)
+    (ha : ∀ c ∈ ca, codeIs o.norm (o.norm code) c = false) (hb : ∀ c ∈ cb, codeIs o.norm (o.norm code) c = false)
+    (hwb : wfItems o body iseen = true) (hiseen : ∀ k ∈ normNames o bls, k ∈ iseen) (hpk : allPacked bls)
+    (hpost : wfBlocks o post bseen2 = true)
+    (hseen2 : ∀ c ∈ w.cif ++ denote o.dia o.normKey pre, o.norm c.code ∈ bseen2)
+    (hfuel : szBlocks pre + (szItems body + body.length + 3) + szBlocks post + 1 ≤ fuel)
+    (hF : Feeds o s (blocksToks pre ++ ((.blockHead, code) :: (itemsToks body ++ (blocksToks post ++ [(.end_, [])]))))) :
+    ∃ s' r, blocksLoop o (fuel + post.length + 1 + pre.length) s acceptAll w
+        = .ok s' { log := r :: w.log,
+                   cif := (ca ++ .mk code0 bfs (denoteItems o.dia o.normKey body bls) :: cb) ++ denote o.dia o.normKey post }
+      ∧ r.code = CIF_DUP_BLOCKCODE := by
+  obtain ⟨s1, h1, h2⟩ := blocks_prefix o hstore hmfd pre bseen _ s (fuel + post.length + 1) acceptAll w hpre hseen (by omega)
+    ⟨_, _, _, rfl, Or.inl rfl⟩ hF
+  obtain ⟨s2, r, h3, hr, h4⟩ := dup_blockcode_step o hstore code code0 body iseen (blocksToks post ++ [(.end_, [])]) s1
+    (fuel + post.length) { w with cif := w.cif ++ denote o.dia o.normKey pre } ca cb bfs bls hsplit hcode hk ha hb hwb hiseen hpk
+    (by omega) (blocks_rest_head post) h2
+  obtain ⟨s3, h5⟩ := blocks_structure o hstore hmfd post bseen2 s2 fuel acceptAll
+    { log := r :: w.log, cif := ca ++ .mk code0 bfs (denoteItems o.dia o.normKey body bls) :: cb } hpost
+    (by
+      rw [hsplit] at hseen2
+      intro c hc
+      rcases List.mem_append.mp hc with h | h
+      · exact hseen2 c (List.mem_append_left _ h)
+      · rcases List.mem_cons.mp h with h | h
+        · subst h
+          exact hseen2 (.mk code0 bfs bls) (List.mem_append_right _ List.mem_cons_self)
+        · exact hseen2 c (List.mem_append_right _ (List.mem_cons_of_mem _ h)))
+    (by omega) h4
+  exact ⟨s3, r, by rw [h1, h3, h5], hr⟩
+
 end CifModel.Model.Parser
